@@ -91,6 +91,35 @@ def _read_any(ex, st, args, dest_ty, func, where):
     return VEnum("Result", I(0), {0: [VInt(n, "usize")]})
 
 
+def _take_read(ex, st, args, dest_ty, func, where):
+    """<Take<&mut R> as Read>::read: Read::read's contract, additionally capped by the remaining limit"""
+    tref, tk = _find_place(ex, st, args[0])
+    if not (isinstance(tk, VStruct) and tk.name == "Take"):
+        raise Unsupported("Take::read on %r" % (tk,))
+    inner, limit = tk.f[0], tk.f[1].t
+    cref, cur = (_find_place(ex, st, inner) if isinstance(inner, VRef) else (None, inner))
+    bref, buf = _find_place(ex, st, args[1])
+    if not (isinstance(cur, VStruct) and cur.name == "Cursor" and isinstance(buf, VSeq)):
+        raise Unsupported("Take::read from %r into %r" % (cur, buf))
+    data, pos = cur.f[0], cur.f[1].t
+    left = z3.If(pos <= data.len, data.len - pos, 0)
+    most = simp(z3.If(left < buf.len, left, buf.len))
+    most = simp(z3.If(limit < most, limit, most))
+    n = ex.fresh_int("short_read", lo=0)
+    ex.assumes.append(z3.Implies(st.guard, z3.And(n <= most, z3.Implies(most > 0, n >= 1))))
+    arr = buf.arr
+    for j in range(ex.byte_cap):
+        arr = z3.Store(arr, simp(buf.off + j), z3.If(j < n, data.at(simp(pos + j)), buf.at(I(j))))
+    ex.store_ref(st, bref, VSeq(arr, buf.off, buf.len, buf.elem))
+    newcur = VStruct("Cursor", [data, VInt(simp(pos + n), "u64")])
+    if cref is not None:
+        ex.store_ref(st, cref, newcur)
+        ex.store_ref(st, tref, VStruct("Take", [inner, VInt(simp(limit - n), "u64")]))
+    else:
+        ex.store_ref(st, tref, VStruct("Take", [newcur, VInt(simp(limit - n), "u64")]))
+    return VEnum("Result", I(0), {0: [VInt(n, "usize")]})
+
+
 def _recording_write_all(ex, st, args, dest_ty, func, where):
     ref, w = _find_place(ex, st, args[0])
     src = as_seq(ex, st, args[1])
@@ -155,6 +184,22 @@ def _map_err(ex, st, args, dest_ty, func, where):
     return VEnum("Result", r.discr, pay)
 
 
+def _result_map(ex, st, args, dest_ty, func, where):
+    """Result::map(f) for f = an enum constructor (Some) or a closure/fn over the Ok payload"""
+    from .stdmodels import _call_fn_value
+    r, f = args
+    pay = dict(r.pay)
+    if 0 in pay:
+        v = pay[0][0]
+        fname = str(f.what[1]) if isinstance(f, VOpaque) and isinstance(f.what, tuple) and f.what[0] == "const" else ""
+        if fname.endswith("::Some") or "::Some}" in func:
+            pay[0] = [some(v)]
+        else:
+            st2 = st
+            pay[0] = [_call_fn_value(ex, st2, f, [v], where)]
+    return VEnum("Result", r.discr, pay)
+
+
 def _from_le_bytes(ex, st, args, dest_ty, func, where):
     m = re.search(r"<impl (\w+)>::from_(le|be)_bytes", func)
     ty, end = m.group(1), m.group(2)
@@ -199,12 +244,14 @@ def install(ex):
     S["Message::encode"] = _msg_encode
     S["Message::decode"] = _msg_decode
     A(r"^<R as (std::io::)?Read>::read_exact$", _read_exact_any, "Cursor::read_exact (array / whole Vec; all or UnexpectedEof)")
+    A(r"^<(std::io::)?Take<.*> as (std::io::)?Read>::read$", _take_read, "Take::read (Read::read contract capped by the limit; short reads allowed)")
     A(r"^<R as (std::io::)?Read>::read$", _read_any, "Read::read (contract: any 1..=min(buf, remaining) bytes; short reads allowed)")
     A(r"^<W as (std::io::)?Write>::write_all$", _recording_write_all, "Write::write_all (recorded)")
     A(r"^Vec::<u8>::resize$", _vec_resize, "Vec::resize (allocation request recorded; new contents unspecified)")
     A(r"^Vec::<u8>::with_capacity$", _vec_with_capacity, "Vec::with_capacity (allocation request recorded)")
     A(r"^Vec::<u8>::capacity$", _vec_capacity, "Vec::capacity (any value >= len)")
     A(r"^bincode::deserialize_from::<", _deserialize_from, "bincode::deserialize_from (HAZARD model: reserves untrusted length prefixes)")
+    A(r"^(std::result::)?Result::<.*>::map::<", _result_map, "Result::map")
     A(r"^(std::result::)?Result::<.*>::map_err::<", _map_err, "Result::map_err (error value opaque)")
     A(r"<impl \w+>::from_(le|be)_bytes$", _from_le_bytes, "uN::from_le_bytes")
     A(r"<impl \w+>::to_(le|be)_bytes$", _to_le_bytes, "uN::to_le_bytes")
